@@ -309,6 +309,29 @@ def term(case, res):
                                           "false" if (case.get("ochcap") or case.get("nocorr")) else "true", "true" if jok else "false", jn)
 
 
+def gone_clients(rng, n):
+    """Attempts whose client has already hung up when they reach admission (request context done), in every admission situation:
+    idle, half attached (same / other ID, same / other direction), fully attached.  Monitor only ('nocorr'): the model has no
+    notion of a request context before admission; what the statement demands of every attempt still holds."""
+    out = []
+    for k in range(n):
+        ops = []
+        base = rng.choice(["idle", "half-in", "half-out", "full"])
+        if base in ("half-in", "full"):
+            ops.append({"op": "admit", "s": 1, "d": "in", "key": K(b"a"), "wk": "plain", "wfail": -1, "ffail": -1})
+        if base in ("half-out", "full"):
+            ops.append({"op": "admit", "s": 2, "d": "out", "key": K(b"a"), "wk": "plain", "wfail": -1, "ffail": -1})
+        sid = 3
+        for _ in range(rng.randrange(1, 4)):
+            ops.append({"op": "admit", "s": sid, "d": rng.choice(["in", "out"]), "key": K(rng.choice([b"a", b"a", b"b", b""])), "wk": "plain",
+                        "wfail": -1, "ffail": -1, "precancel": True})
+            ops.append({"op": "release", "s": sid})
+            sid += 1
+        ops.append({"op": "line", "l": K(b"probe")})
+        out.append({"ops": ops, "nocorr": True})
+    return out
+
+
 def build(run):
     ok, binp, log = vlib.build_overlay_test(run.rundir, "internal/iobroker")
     run.checker_cmds.append("go1.26 test -c -tags verif -overlay (harness/overlay/iobroker injected into /repo/internal/iobroker); "
